@@ -56,6 +56,18 @@ def main():
     log = subprocess.run(["git", "-C", "/repo", "log", "--format=%h %s"], stdout=subprocess.PIPE, text=True).stdout.split("\n")
     fixes = ["* `%s`" % l for l in log if re.match(r"[0-9a-f]+ fix:", l)]
     s = sub_block(s, "FIX-LIST", "\n".join(fixes) if fixes else "(none yet)")
+    tot = 0
+    axs = set()
+    per = []
+    for p in props:
+        ev = os.path.join(VERIF, "evidence", p["id"] + ".json")
+        if os.path.exists(ev):
+            c = json.load(open(ev)).get("coverage", {})
+            tot += c.get("obligations", 0) or 0
+            axs |= set(c.get("axioms", []) or [])
+            per.append("%s %s/%s" % (p["id"], c.get("discharged"), c.get("obligations")))
+    s = sub_block(s, "TB", "Across the latest evidence files: **%d theorems** in the `Property.v` files (discharged/obligations per property: %s); "
+                  "axioms reported by `Print Assumptions` over all of them: **%s**." % (tot, ", ".join(per), ", ".join(sorted(axs)) if axs else "none (every theorem is closed under the global context)"))
     fa = []
     for p in props:
         pid = p["id"]
